@@ -3,6 +3,7 @@ import Driver.Ring
 import Driver.Mixer
 import Driver.Xbin
 import Driver.Errs
+import Driver.OMap
 
 def main (args : List String) : IO UInt32 := do
   match args with
@@ -10,4 +11,5 @@ def main (args : List String) : IO UInt32 := do
   | ["mixer"] => Drv.run DrvMixer.comp
   | ["xbin"] => Drv.run DrvXbin.comp
   | ["errs"] => Drv.run DrvErrs.comp
+  | ["omap"] => Drv.run DrvOMap.comp
   | _ => IO.eprintln "usage: driver <component>"; return 2
